@@ -29,7 +29,25 @@ structure RInvX (ex : Spec → Prop) (st : St) : Prop where
 /-- the invariant of C18 -/
 abbrev RInv (st : St) : Prop := RInvX (fun _ => False) st
 
+/-- `RInvX` without "one reference per (parent, name)": holds also in the middle of `change_ref`,
+when the new reference is registered and the previous one not yet dropped -/
+structure RCore (ex : Spec → Prop) (st : St) : Prop where
+  ridLt : ∀ r ∈ st.refs, r.rid < st.nextRid
+  entry : ∀ m v, EntryOK st.refs m v (alookup st.v2r (m, v))
+  keys : (st.v2r.map (·.1)).Nodup
+  specRef : ∀ σ ∈ st.specs, ¬ ex σ → ∃ r ∈ st.refs, r.owner.model = σ.group ∧ r.val = σ.val
+  specVal : ∀ σ ∈ st.specs, ∀ τ ∈ st.specs, σ.group = τ.group → σ.val = τ.val → σ = τ
+  specPandas : ∀ σ ∈ st.specs, σ.val.isPandas = true
+  sid : SidOK (sp st)
+
 variable {ex : Spec → Prop}
+
+theorem RInvX.core {st : St} (h : RInvX ex st) : RCore ex st :=
+  ⟨h.ridLt, h.entry, h.keys, h.specRef, h.specVal, h.specPandas, h.sid⟩
+
+theorem RCore.withKey {st : St} (c : RCore ex st)
+    (k : ∀ r ∈ st.refs, ∀ r' ∈ st.refs, r.owner = r'.owner → r.name = r'.name → r = r') : RInvX ex st :=
+  ⟨c.ridLt, k, c.entry, c.keys, c.specRef, c.specVal, c.specPandas, c.sid⟩
 
 theorem tracked_of_isPandas {v : Val} (h : v.isPandas = true) : v.tracked = true := by
   cases v <;> simp_all [Val.isPandas, Val.tracked]
@@ -59,8 +77,8 @@ theorem mem_refErase_of_lookup {st : St} (h : RInvX ex st) {o : Owner} {n : Stri
 
 /-! ### `new_ref` -/
 
-theorem rinv_rmNewRef {st : St} (h : RInvX ex st) {o : Owner} {n : String} (v : Val)
-    (hl : refLookup st.refs o n = none) : RInvX ex (rmNewRef st o n v) := by
+theorem rcore_rmNewRef {st : St} (h : RCore ex st) (o : Owner) (n : String) (v : Val) :
+    RCore ex (rmNewRef st o n v) := by
   have hfresh : ∀ r ∈ st.refs, r ≠ mkRef st o n v := by
     intro r hr e
     have := h.ridLt r hr
@@ -73,21 +91,13 @@ theorem rinv_rmNewRef {st : St} (h : RInvX ex st) {o : Owner} {n : String} (v : 
     unfold rmNewRef; split <;> rfl
   have hrid : (rmNewRef st o n v).nextRid = st.nextRid + 1 := by
     unfold rmNewRef; split <;> rfl
-  refine ⟨?_, ?_, ?_, ?_, ?_, ?_, ?_, hsid⟩
+  refine ⟨?_, ?_, ?_, ?_, ?_, ?_, hsid⟩
   · intro r hr
     rw [hrefs] at hr; rw [hrid]
     simp only [List.mem_append, List.mem_singleton] at hr
     rcases hr with hr | rfl
     · have := h.ridLt r hr; omega
     · simp [mkRef]
-  · intro r hr r' hr' ho hn
-    rw [hrefs] at hr hr'
-    simp only [List.mem_append, List.mem_singleton] at hr hr'
-    rcases hr with hr | rfl <;> rcases hr' with hr' | rfl
-    · exact h.refKey r hr r' hr' ho hn
-    · exact absurd ⟨ho, hn⟩ (refLookup_none hl r hr)
-    · exact absurd ⟨ho.symm, hn.symm⟩ (refLookup_none hl r' hr')
-    · rfl
   · intro m' v'
     rw [hrefs]
     have hold := h.entry m' v'
@@ -172,10 +182,24 @@ theorem rinv_rmNewRef {st : St} (h : RInvX ex st) {o : Owner} {n : String} (v : 
   · rw [hspecs]; exact h.specVal
   · rw [hspecs]; exact h.specPandas
 
+theorem rinv_rmNewRef {st : St} (h : RInvX ex st) {o : Owner} {n : String} (v : Val)
+    (hl : refLookup st.refs o n = none) : RInvX ex (rmNewRef st o n v) := by
+  refine (rcore_rmNewRef h.core o n v).withKey ?_
+  have hrefs : (rmNewRef st o n v).refs = st.refs ++ [mkRef st o n v] := by
+    unfold rmNewRef; split <;> rfl
+  intro r hr r' hr' ho hn
+  rw [hrefs] at hr hr'
+  simp only [List.mem_append, List.mem_singleton] at hr hr'
+  rcases hr with hr | rfl <;> rcases hr' with hr' | rfl
+  · exact h.refKey r hr r' hr' ho hn
+  · exact absurd ⟨ho, hn⟩ (refLookup_none hl r hr)
+  · exact absurd ⟨ho.symm, hn.symm⟩ (refLookup_none hl r' hr')
+  · rfl
+
 /-! ### `del_ref` -/
 
 /-- the state after one tracked reference `prev` went away and its entry was repaired -/
-theorem rinv_after_del {st s' : St} (h : RInvX ex st) {prev : Ref} {l : List Ref}
+theorem rcore_after_del {st s' : St} (h : RCore ex st) {prev : Ref} {l : List Ref}
     (hp : prev ∈ st.refs)
     (hl : alookup st.v2r (prev.owner.model, prev.val) = some l)
     (hrefs : ∀ r, r ∈ s'.refs ↔ r ∈ st.refs ∧ r ≠ prev)
@@ -184,7 +208,7 @@ theorem rinv_after_del {st s' : St} (h : RInvX ex st) {prev : Ref} {l : List Ref
                 ∀ τ, τ ∈ s'.specs ↔ τ ∈ st.specs ∧ ¬ (τ.group = prev.owner.model ∧ τ.val = prev.val)) ∨
              (l.erase prev ≠ [] ∧ s'.v2r = ainsert st.v2r (prev.owner.model, prev.val) (l.erase prev) ∧
                 s'.specs = st.specs))
-    (hsid : SidOK (sp s')) : RInvX ex s' := by
+    (hsid : SidOK (sp s')) : RCore ex s' := by
   have hE := h.entry prev.owner.model prev.val
   rw [hl] at hE
   obtain ⟨e1, e2, e3, e4⟩ := hE
@@ -194,10 +218,8 @@ theorem rinv_after_del {st s' : St} (h : RInvX ex st) {prev : Ref} {l : List Ref
     rcases hcase with ⟨_, _, hs⟩ | ⟨_, _, hs⟩
     · exact ((hs τ).mp hτ).1
     · rw [hs] at hτ; exact hτ
-  refine ⟨?_, ?_, ?_, ?_, ?_, ?_, ?_, hsid⟩
+  refine ⟨?_, ?_, ?_, ?_, ?_, ?_, hsid⟩
   · intro r hr; rw [hrid]; exact h.ridLt r ((hrefs r).mp hr).1
-  · intro r hr r' hr'
-    exact h.refKey r ((hrefs r).mp hr).1 r' ((hrefs r').mp hr').1
   · intro m v
     have hold := h.entry m v
     by_cases hk : (prev.owner.model, prev.val) = (m, v)
@@ -247,7 +269,56 @@ theorem rinv_after_del {st s' : St} (h : RInvX ex st) {prev : Ref} {l : List Ref
   · intro σ hσ; exact h.specPandas σ (hsub σ hσ)
 
 /-- with the invariant, deleting the spec found for (m, v) removes exactly the specs for (m, v) -/
-theorem mem_delSpec_of_getSpec {st : St} (h : RInvX ex st) {m : Nat} {v : Val} {σ : Spec}
+
+theorem rinv_after_del {st s' : St} (h : RInvX ex st) {prev : Ref} {l : List Ref}
+    (hp : prev ∈ st.refs)
+    (hl : alookup st.v2r (prev.owner.model, prev.val) = some l)
+    (hrefs : ∀ r, r ∈ s'.refs ↔ r ∈ st.refs ∧ r ≠ prev)
+    (hrid : s'.nextRid = st.nextRid)
+    (hcase : (l.erase prev = [] ∧ s'.v2r = aerase st.v2r (prev.owner.model, prev.val) ∧
+                ∀ τ, τ ∈ s'.specs ↔ τ ∈ st.specs ∧ ¬ (τ.group = prev.owner.model ∧ τ.val = prev.val)) ∨
+             (l.erase prev ≠ [] ∧ s'.v2r = ainsert st.v2r (prev.owner.model, prev.val) (l.erase prev) ∧
+                s'.specs = st.specs))
+    (hsid : SidOK (sp s')) : RInvX ex s' :=
+  (rcore_after_del h.core hp hl hrefs hrid hcase hsid).withKey
+    (fun r hr r' hr' => h.refKey r ((hrefs r).mp hr).1 r' ((hrefs r').mp hr').1)
+
+/-- a reference to an untracked value (an Interface) goes away: nothing else changes -/
+theorem rcore_remove_untracked {st s' : St} (h : RCore ex st) {prev : Ref}
+    (ht : ¬ prev.val.tracked = true)
+    (hrefs : ∀ r, r ∈ s'.refs ↔ r ∈ st.refs ∧ r ≠ prev)
+    (hrid : s'.nextRid = st.nextRid) (hv : s'.v2r = st.v2r) (hs : s'.specs = st.specs)
+    (hsid : SidOK (sp s')) : RCore ex s' := by
+  refine ⟨?_, ?_, by rw [hv]; exact h.keys, ?_, by rw [hs]; exact h.specVal,
+    by rw [hs]; exact h.specPandas, hsid⟩
+  · intro r hr; rw [hrid]; exact h.ridLt r ((hrefs r).mp hr).1
+  · intro m v
+    have hold := h.entry m v
+    rw [hv]
+    cases he : alookup st.v2r (m, v) with
+    | none =>
+      rw [he] at hold
+      intro r hr; exact hold r ((hrefs r).mp hr).1
+    | some l0 =>
+      rw [he] at hold
+      obtain ⟨h1, h2, h3, h4⟩ := hold
+      refine ⟨h1, h2, h3, fun r => ?_⟩
+      rw [h4 r, hrefs r]
+      constructor
+      · rintro ⟨a, b, c⟩
+        refine ⟨⟨a, ?_⟩, b, c⟩
+        rintro rfl
+        rw [c] at ht; exact ht h3
+      · rintro ⟨⟨a, _⟩, b, c⟩; exact ⟨a, b, c⟩
+  · intro σ hσ hex
+    rw [hs] at hσ
+    obtain ⟨r, hr, hm, hv'⟩ := h.specRef σ hσ hex
+    refine ⟨r, (hrefs r).mpr ⟨hr, ?_⟩, hm, hv'⟩
+    rintro rfl
+    have := tracked_of_isPandas (h.specPandas σ hσ)
+    rw [← hv'] at this; exact ht this
+
+theorem mem_delSpec_of_getSpec {st : St} (h : RCore ex st) {m : Nat} {v : Val} {σ : Spec}
     (hg : getSpecFromValue st m v = some σ) (τ : Spec) :
     (τ ∈ st.specs ∧ τ.sid ≠ σ.sid) ↔ (τ ∈ st.specs ∧ ¬ (τ.group = m ∧ τ.val = v)) := by
   obtain ⟨hσ, hm, hv⟩ := getSpec_some hg
@@ -260,7 +331,7 @@ theorem mem_delSpec_of_getSpec {st : St} (h : RInvX ex st) {m : Nat} {v : Val} {
     have := h.sid.sidUnique τ hτ σ hσ e
     rw [this]; exact ⟨hm, hv⟩
 
-theorem dropIfEmpty_case {st s : St} (h : RInvX ex st) (hv2r : s.v2r = st.v2r) (hspecs : s.specs = st.specs)
+theorem dropIfEmpty_case {st s : St} (h : RCore ex st) (hv2r : s.v2r = st.v2r) (hspecs : s.specs = st.specs)
     (m : Nat) (v : Val) (l' : List Ref) :
     (l' = [] ∧ (dropIfEmpty s m v l').v2r = aerase st.v2r (m, v) ∧
         ∀ τ, τ ∈ (dropIfEmpty s m v l').specs ↔ τ ∈ st.specs ∧ ¬ (τ.group = m ∧ τ.val = v)) ∨
@@ -320,7 +391,7 @@ theorem rmDelRef_spec {st : St} (h : RInvX ex st) {o : Owner} {n : String} {prev
         alookup st.v2r (o.model, prev.val) = some [prev] ∧
         ∀ r ∈ (rmDelRef st o n).1.refs, ¬ (r.owner.model = o.model ∧ r.val = prev.val)) := by
   obtain ⟨hp, ho, hn⟩ := refLookup_some hl
-  have hsid : SidOK (sp (rmDelRef st o n).1) := sidOK_strans (strans_rmDelRef (strict := false) st o n) h.sid
+  have hsid : SidOK (sp (rmDelRef st o n).1) := sidOK_strans (strans_rmDelRef st o n) h.sid
   have herase := mem_refErase_of_lookup h hl
   by_cases ht : prev.val.tracked = true
   · -- the entry exists and contains prev
@@ -342,7 +413,7 @@ theorem rmDelRef_spec {st : St} (h : RInvX ex st) {o : Owner} {n : String} {prev
         cases l with
         | nil => exact absurd rfl e1
         | cons a rest => simp only [hin, if_true]
-      have hcase := dropIfEmpty_case (s := implDelRef st o n) h rfl rfl o.model prev.val (l.erase prev)
+      have hcase := dropIfEmpty_case (s := implDelRef st o n) h.core rfl rfl o.model prev.val (l.erase prev)
       have hr := refs_dropIfEmpty (implDelRef st o n) o.model prev.val (l.erase prev)
       have heq1 : (rmDelRef st o n).1 = dropIfEmpty (implDelRef st o n) o.model prev.val (l.erase prev) := by
         rw [heq]
@@ -406,86 +477,9 @@ theorem rmDelRef_spec {st : St} (h : RInvX ex st) {o : Owner} {n : String} {prev
       have := tracked_of_isPandas (h.specPandas σ hσ)
       rw [← hv] at this; exact ht this
 
-/-! ### `change_ref` = `del_ref` followed by `new_ref` (given the invariant) -/
-
-theorem rmDelRef_tracked_eq {st : St} (h : RInvX ex st) {o : Owner} {n : String} {prev : Ref}
-    (hl : refLookup st.refs o n = some prev) (ht : prev.val.tracked = true) :
-    ∃ l, alookup st.v2r (o.model, prev.val) = some l ∧ prev ∈ l ∧
-      rmDelRef st o n = (dropIfEmpty (implDelRef st o n) o.model prev.val (l.erase prev), .ok ()) := by
-  obtain ⟨hp, ho, hn⟩ := refLookup_some hl
-  have hE := h.entry prev.owner.model prev.val
-  cases hlk : alookup st.v2r (prev.owner.model, prev.val) with
-  | none =>
-    rw [hlk] at hE
-    have := hE prev hp rfl rfl
-    rw [ht] at this; cases this
-  | some l =>
-    rw [hlk] at hE
-    obtain ⟨e1, e2, e3, e4⟩ := hE
-    have hin : prev ∈ l := (e4 prev).mpr ⟨hp, rfl, rfl⟩
-    have hlk' : alookup st.v2r (o.model, prev.val) = some l := by rw [← ho]; exact hlk
-    refine ⟨l, hlk', hin, ?_⟩
-    unfold rmDelRef
-    simp only [hl, ht, Bool.not_true, Bool.false_eq_true, if_false, hlk']
-    cases l with
-    | nil => exact absurd rfl e1
-    | cons a rest => simp only [hin, if_true]
-
-theorem rmDelRef_untracked_eq {st : St} {o : Owner} {n : String} {prev : Ref}
-    (hl : refLookup st.refs o n = some prev) (ht : ¬ prev.val.tracked = true) :
-    rmDelRef st o n = (implDelRef st o n, .ok ()) := by
-  unfold rmDelRef
-  simp only [hl, ht, Bool.not_false, if_true]
-
-theorem dropIfEmpty_implNewRef (s : St) (o : Owner) (n : String) (v : Val) (m : Nat) (pv : Val)
-    (l : List Ref) :
-    dropIfEmpty (implNewRef s o n v) m pv l = implNewRef (dropIfEmpty s m pv l) o n v := by
-  unfold dropIfEmpty
-  split
-  · have : getSpecFromValue (implNewRef s o n v) m pv = getSpecFromValue s m pv := rfl
-    rw [this]
-    split <;> rfl
-  · rfl
-
-theorem mkRef_dropIfEmpty (s : St) (m : Nat) (pv : Val) (l : List Ref) (o : Owner) (n : String) (v : Val) :
-    mkRef (dropIfEmpty s m pv l) o n v = mkRef s o n v := by
-  unfold mkRef; rw [(refs_dropIfEmpty s m pv l).2]
-
-theorem rmChangeRef_eq {st : St} (h : RInvX ex st) {o : Owner} {n : String} {prev : Ref} (v : Val)
-    (hl : refLookup st.refs o n = some prev) :
-    rmChangeRef st o n v = (rmNewRef (rmDelRef st o n).1 o n v, .ok ()) := by
-  by_cases ht : prev.val.tracked = true
-  · obtain ⟨l, hlk, hin, heq⟩ := rmDelRef_tracked_eq h hl ht
-    rw [heq]
-    have hcd : changeDrop (implChangeRef st o n v) o.model prev =
-        implNewRef (dropIfEmpty (implDelRef st o n) o.model prev.val (l.erase prev)) o n v := by
-      unfold changeDrop
-      have : alookup (implChangeRef st o n v).v2r (o.model, prev.val) = some l := hlk
-      rw [this]
-      simp only [implChangeRef]
-      exact dropIfEmpty_implNewRef _ _ _ _ _ _ _
-    unfold rmChangeRef rmNewRef
-    simp only [hl, hcd, mkRef_dropIfEmpty]
-    have : mkRef (implDelRef st o n) o n v = mkRef st o n v := rfl
-    rw [this]
-    split <;> rfl
-  · rw [rmDelRef_untracked_eq hl ht]
-    have hnone : alookup st.v2r (o.model, prev.val) = none := by
-      cases hlk : alookup st.v2r (o.model, prev.val) with
-      | none => rfl
-      | some l =>
-        have := h.entry o.model prev.val
-        rw [hlk] at this
-        exact absurd this.2.2.1 ht
-    have hcd : changeDrop (implChangeRef st o n v) o.model prev = implChangeRef st o n v := by
-      unfold changeDrop
-      have : alookup (implChangeRef st o n v).v2r (o.model, prev.val) = none := hnone
-      rw [this]
-    unfold rmChangeRef rmNewRef
-    simp only [hl, hcd]
-    have : mkRef (implDelRef st o n) o n v = mkRef st o n v := rfl
-    rw [this]
-    split <;> rfl
+/-! ### `change_ref`: the new reference is registered (`new_ref`'s bookkeeping), then the previous
+one is dropped (`del_ref`'s bookkeeping); in between the parent has two references of one name,
+which `RCore` allows -/
 
 theorem refLookup_refErase (refs : List Ref) (o : Owner) (n : String) :
     refLookup (refErase refs o n) o n = none := by
@@ -499,8 +493,29 @@ theorem refs_rmNewRef (st : St) (o : Owner) (n : String) (v : Val) :
     (rmNewRef st o n v).refs = st.refs ++ [mkRef st o n v] ∧ (rmNewRef st o n v).specs = st.specs := by
   unfold rmNewRef; split <;> exact ⟨rfl, rfl⟩
 
+/-- the state of `change_ref` after the new reference was registered -/
+def afterAppend (st : St) (o : Owner) (n : String) (v : Val) : St :=
+  if v.tracked then v2rAppend (implChangeRef st o n v) o.model v (mkRef st o n v)
+  else implChangeRef st o n v
+
+theorem afterAppend_fields (st : St) (o : Owner) (n : String) (v : Val) :
+    (afterAppend st o n v).refs = refErase st.refs o n ++ [mkRef st o n v] ∧
+    (afterAppend st o n v).v2r = (rmNewRef st o n v).v2r ∧
+    (afterAppend st o n v).specs = (rmNewRef st o n v).specs ∧
+    (afterAppend st o n v).nextRid = (rmNewRef st o n v).nextRid := by
+  unfold afterAppend rmNewRef
+  split <;> exact ⟨rfl, rfl, rfl, rfl⟩
+
+theorem rmChangeRef_eq_changeDrop {st : St} {o : Owner} {n : String} {prev : Ref} (v : Val)
+    (hl : refLookup st.refs o n = some prev) :
+    rmChangeRef st o n v = (changeDrop (afterAppend st o n v) o.model prev, .ok ()) := by
+  unfold rmChangeRef afterAppend
+  simp only [hl]
+  split <;> rfl
+
 /-- `change_ref` of an existing name: succeeds and keeps the invariant; a spec disappears only if it
-was the spec of the previous value and the name was the only reference to that value -/
+was the spec of the previous value and no reference of the model – the new one included – is bound
+to that value afterwards -/
 theorem rmChangeRef_spec {st : St} (h : RInvX ex st) {o : Owner} {n : String} {prev : Ref} (v : Val)
     (hl : refLookup st.refs o n = some prev) :
     (rmChangeRef st o n v).2 = .ok () ∧ RInvX ex (rmChangeRef st o n v).1 ∧
@@ -508,26 +523,102 @@ theorem rmChangeRef_spec {st : St} (h : RInvX ex st) {o : Owner} {n : String} {p
     (∀ τ ∈ (rmChangeRef st o n v).1.specs, τ ∈ st.specs) ∧
     (∀ σ ∈ st.specs, σ ∉ (rmChangeRef st o n v).1.specs →
         σ.group = o.model ∧ σ.val = prev.val ∧
-        alookup st.v2r (o.model, prev.val) = some [prev] ∧
-        ∀ r ∈ (rmChangeRef st o n v).1.refs, r.owner.model = o.model → r.val = prev.val →
-          r = mkRef st o n v) := by
-  obtain ⟨d1, d2, d3, d4, d5, d6⟩ := rmDelRef_spec h hl
-  rw [rmChangeRef_eq h v hl]
-  have hmk : mkRef (rmDelRef st o n).1 o n v = mkRef st o n v := by unfold mkRef; rw [d4]
-  have hlk : refLookup (rmDelRef st o n).1.refs o n = none := by rw [d3]; exact refLookup_refErase _ _ _
-  obtain ⟨n1, n2⟩ := refs_rmNewRef (rmDelRef st o n).1 o n v
-  refine ⟨rfl, rinv_rmNewRef d2 v hlk, by rw [n1, d3, hmk], ?_, ?_⟩
-  · intro τ hτ; simp only at hτ; rw [n2] at hτ; exact d5 τ hτ
-  · intro σ hσ hgone
-    simp only at hgone ⊢
-    rw [n2] at hgone
-    obtain ⟨g1, g2, g3, g4⟩ := d6 σ hσ hgone
-    refine ⟨g1, g2, g3, ?_⟩
-    intro r hr hm hv
-    rw [n1, hmk] at hr
-    simp only [List.mem_append, List.mem_singleton] at hr
-    rcases hr with hr | hr
-    · exact absurd ⟨hm, hv⟩ (g4 r hr)
-    · exact hr
+        ∀ r ∈ (rmChangeRef st o n v).1.refs, ¬ (r.owner.model = o.model ∧ r.val = prev.val)) := by
+  obtain ⟨hp, ho, hn⟩ := refLookup_some hl
+  have hsid : SidOK (sp (rmChangeRef st o n v).1) := sidOK_strans (strans_rmChangeRef st o n v) h.sid
+  rw [rmChangeRef_eq_changeDrop v hl] at hsid ⊢
+  simp only at hsid ⊢
+  obtain ⟨a1, a2, a3, a4⟩ := afterAppend_fields st o n v
+  obtain ⟨n1, n2⟩ := refs_rmNewRef st o n v
+  have cstar : RCore ex (rmNewRef st o n v) := rcore_rmNewRef h.core o n v
+  have hnewne : mkRef st o n v ≠ prev := by
+    intro e
+    have := h.ridLt prev hp
+    rw [← e] at this
+    simp [mkRef] at this
+  have hpstar : prev ∈ (rmNewRef st o n v).refs := by rw [n1]; simp [hp]
+  have hrefsS : ∀ r, r ∈ (afterAppend st o n v).refs ↔ r ∈ (rmNewRef st o n v).refs ∧ r ≠ prev := by
+    intro r
+    rw [a1, n1]
+    simp only [List.mem_append, List.mem_singleton, mem_refErase_of_lookup h hl r]
+    constructor
+    · rintro (⟨x, y⟩ | rfl)
+      · exact ⟨Or.inl x, y⟩
+      · exact ⟨Or.inr rfl, hnewne⟩
+    · rintro ⟨x | x, y⟩
+      · exact Or.inl ⟨x, y⟩
+      · exact Or.inr x
+  -- one reference per name in the result
+  have hkey : ∀ r ∈ (afterAppend st o n v).refs, ∀ r' ∈ (afterAppend st o n v).refs,
+      r.owner = r'.owner → r.name = r'.name → r = r' := by
+    have hnone := refLookup_refErase st.refs o n
+    intro r hr r' hr' e1 e2
+    rw [a1] at hr hr'
+    simp only [List.mem_append, List.mem_singleton] at hr hr'
+    rcases hr with hr | rfl <;> rcases hr' with hr' | rfl
+    · exact h.refKey r (mem_refErase.mp hr).1 r' (mem_refErase.mp hr').1 e1 e2
+    · exact absurd ⟨e1, e2⟩ (refLookup_none hnone r hr)
+    · exact absurd ⟨e1.symm, e2.symm⟩ (refLookup_none hnone r' hr')
+    · rfl
+  by_cases ht : prev.val.tracked = true
+  · -- the entry of the previous value exists (in the state after the append) and contains prev
+    have hE := cstar.entry prev.owner.model prev.val
+    cases hlk : alookup (rmNewRef st o n v).v2r (prev.owner.model, prev.val) with
+    | none =>
+      rw [hlk] at hE
+      have := hE prev hpstar rfl rfl
+      rw [ht] at this; cases this
+    | some l =>
+      rw [hlk] at hE
+      obtain ⟨e1, e2, e3, e4⟩ := hE
+      have hlkS : alookup (afterAppend st o n v).v2r (o.model, prev.val) = some l := by
+        have hkeq : (o.model, prev.val) = (prev.owner.model, prev.val) := by rw [ho]
+        rw [a2, hkeq]; exact hlk
+      have hcd : changeDrop (afterAppend st o n v) o.model prev =
+          dropIfEmpty (afterAppend st o n v) o.model prev.val (l.erase prev) := by
+        unfold changeDrop; rw [hlkS]
+      rw [hcd] at hsid ⊢
+      have hcase := dropIfEmpty_case (s := afterAppend st o n v) cstar a2 a3 o.model prev.val (l.erase prev)
+      obtain ⟨r1, r2⟩ := refs_dropIfEmpty (afterAppend st o n v) o.model prev.val (l.erase prev)
+      have hcore : RCore ex (dropIfEmpty (afterAppend st o n v) o.model prev.val (l.erase prev)) := by
+        refine rcore_after_del cstar hpstar hlk ?_ ?_ ?_ hsid
+        · intro r; rw [r1]; exact hrefsS r
+        · rw [r2, a4]
+        · rw [ho]; exact hcase
+      refine ⟨trivial, hcore.withKey (by rw [r1]; exact hkey), by rw [r1, a1], ?_, ?_⟩
+      · intro τ hτ
+        rcases hcase with ⟨_, _, hs⟩ | ⟨_, _, hs⟩
+        · have := ((hs τ).mp hτ).1; rw [n2] at this; exact this
+        · rw [hs, n2] at hτ; exact hτ
+      · intro σ hσ hgone
+        rcases hcase with ⟨hemp, _, hs⟩ | ⟨_, _, hs⟩
+        · have hσ' : σ ∈ (rmNewRef st o n v).specs := by rw [n2]; exact hσ
+          have : ¬ ¬ (σ.group = o.model ∧ σ.val = prev.val) := fun hc => hgone ((hs σ).mpr ⟨hσ', hc⟩)
+          have hm := Decidable.not_not.mp this
+          refine ⟨hm.1, hm.2, ?_⟩
+          intro r hr ⟨hm1, hv1⟩
+          rw [r1] at hr
+          have hr' := (hrefsS r).mp hr
+          have : r ∈ l.erase prev :=
+            e2.mem_erase_iff.mpr ⟨hr'.2, (e4 r).mpr ⟨hr'.1, by rw [ho]; exact hm1, hv1⟩⟩
+          rw [hemp] at this; cases this
+        · rw [hs, n2] at hgone; exact absurd hσ hgone
+  · -- the previous value is an Interface: no entry, nothing to drop
+    have hnone : alookup (afterAppend st o n v).v2r (o.model, prev.val) = none := by
+      rw [a2]
+      cases hlk : alookup (rmNewRef st o n v).v2r (o.model, prev.val) with
+      | none => rfl
+      | some l =>
+        have := cstar.entry o.model prev.val
+        rw [hlk] at this
+        exact absurd this.2.2.1 ht
+    have hcd : changeDrop (afterAppend st o n v) o.model prev = afterAppend st o n v := by
+      unfold changeDrop; rw [hnone]
+    rw [hcd] at hsid ⊢
+    have hcore : RCore ex (afterAppend st o n v) :=
+      rcore_remove_untracked cstar ht hrefsS a4 a2 a3 hsid
+    refine ⟨trivial, hcore.withKey hkey, a1, ?_, ?_⟩
+    · intro τ hτ; rw [a3, n2] at hτ; exact hτ
+    · intro σ hσ hgone; rw [a3, n2] at hgone; exact absurd hσ hgone
 
 end MxModel.IOSpec
